@@ -521,6 +521,22 @@ theorem C14_composite_eviction_invisible_any_schedule (r : Req) (parts : List (L
     foldl_op_perm (merge r) (empty r) (merge_assoc r) (merge_comm r) (empty_merge r) hleaves]
   exact C14_composite_eviction_invisible_anywhere r parts
 
+/-- **The complete segment model** (terms cut AND composite eviction, `collectSegFull`): for every
+request tree, every partition and every merge schedule the final result is the direct per-value
+computation, provided no segment truncated a terms node (the guard of `C14_partition_invariant`;
+sufficient: `C14_noTrunc_of_small`; key-ordered terms need no guard:
+`C14_terms_key_order_exact_any_schedule`; otherwise the bounds of `C14_terms_error_bound`). -/
+theorem C14_full_segment_model_exact (r : Req) (parts : List (List Doc)) (t : MTree (Inter M r))
+    (hleaves : t.leaves.Perm (parts.map (collectSegFull (M := M) r)))
+    (hno : ∀ p ∈ parts, harvest (M := M) r (collect r p) = collect r p) :
+    finalize r (t.eval (merge r) (empty r)) = evalAggPV M r parts.flatten := by
+  have hseg : parts.map (collectSegFull (M := M) r) = parts.map (collectSegEvict r) :=
+    List.map_congr_left (fun p hp => by
+      show evict r (harvest r (collect r p)) = evict r (collect r p)
+      rw [hno p hp])
+  rw [hseg] at hleaves
+  exact C14_composite_eviction_invisible_any_schedule r parts t hleaves
+
 /-- the observational core: an evicted fruit behaves like the original one in every merge -/
 theorem C14_evict_observationally_equal (r : Req) (x z : Inter M r) (hx : WS r x) (hz : WS r z) :
     finalize r (merge r (evict r x) z) = finalize r (merge r x z) :=
@@ -723,6 +739,13 @@ example : @Eq (List (Int × Nat × List (Int × Nat × Unit)) × Nat × Nat) (fi
     (([[[(1, [7]), (0, [3])], [(1, [7]), (0, [1])]], [[(1, [7]), (0, [2])], [(1, [7]), (0, [0])]]].map
         (collectSegEvict (M := Int) (.terms ⟨1, Option.none, 10, 10, 1, .keyAsc⟩ (.composite [⟨0, 9, false⟩] 1 Option.none .none)))).foldl
       (merge _) (empty _))) ([(7, 4, [(0, 1, ())])], 0, 0) := by decide +kernel
+set_option synthInstance.maxSize 1024 in
+/-- the complete segment model on the same corpus (no terms cut: 1 distinct term ≤ segment_size 10) -/
+example : @Eq (List (Int × Nat × List (Int × Nat × Unit)) × Nat × Nat) (finalize (M := Int) (.terms ⟨1, Option.none, 10, 10, 1, .keyAsc⟩ (.composite [⟨0, 9, false⟩] 1 Option.none .none))
+    ((MTree.node (.leaf (collectSegFull (M := Int) (.terms ⟨1, Option.none, 10, 10, 1, .keyAsc⟩ (.composite [⟨0, 9, false⟩] 1 Option.none .none))
+          [[(1, [7]), (0, [3])], [(1, [7]), (0, [1])]]))
+        (.leaf (collectSegFull (M := Int) (.terms ⟨1, Option.none, 10, 10, 1, .keyAsc⟩ (.composite [⟨0, 9, false⟩] 1 Option.none .none))
+          [[(1, [7]), (0, [2])], [(1, [7]), (0, [0])]]))).eval (merge _) (empty _))) ([(7, 4, [(0, 1, ())])], 0, 0) := by decide +kernel
 example : (compTrim 1 Option.none (compTrim 2 Option.none (KMap.merge (fun a _ => a) (KMap.single 3 (1, ()))
     (KMap.merge (fun a _ => a) (KMap.single 1 (1, ())) (KMap.single 2 (1, ())))))).entries = [(1, 1, ())] := by decide +kernel
 example : [0, 10, 20].Pairwise (fun a b : Int => a < b) := by decide
